@@ -28,10 +28,14 @@ Trace == ndJsonDeserialize("trace.ndjson")
 F(ok, name) == IF ok THEN "" ELSE name \o "; "
 
 ObsFails(o, s, i) ==   \* s, i: content and position AFTER the call
+  LET open == HasOtherBreak(s)
+      lc   == IF open THEN <<0, 0>> ELSE LC(s, i)                       \* one forward scan for the position ...
+      plc  == IF open THEN <<0, 0>> ELSE LCAdv(s, lc, i, KNextOf(s, i))  \* ... continued by one slot for the peeked one
+  IN
      F(o.k = i, "cursor position")
-  \o F(HasOtherBreak(s) \/ (o.line = LineOf(s, i) /\ o.col = ColumnOf(s, i)), "line/column is not that of a forward scan to the position")
+  \o F(open \/ (o.line = lc[1] /\ o.col = lc[2]), "line/column is not that of a forward scan to the position")
   \o F(o.peek = PeekOf(s, i), "peek")
-  \o F(HasOtherBreak(s) \/ (o.pline = PeekLineOf(s, i) /\ o.pcol = PeekColumnOf(s, i)),
+  \o F(open \/ (o.pline = plc[1] /\ o.pcol = plc[2]),
        "peeked line/column differ from those after the next read")
   \o F(o.k2 = o.k /\ o.line2 = o.line /\ o.col2 = o.col, "a peek moved the cursor")
 
